@@ -7,7 +7,8 @@ package main
 //                 or a go statement), how many `defer x.Release()` and how many direct x.Release();
 //   * poolPuts  — every call that hands an object back to a pool, with its enclosing function;
 //   * copyOuts  — do Writer.Bytes / Writer.BytesWithLength return a slice made in the call and
-//                 filled by copy (never the pooled buffer itself).
+//                 filled by copy (never the pooled buffer itself);
+//   * optionValueProv — where the value stored by ParseOptions / ReadOptions / ReadTLVs / ReadTLVs1 lives.
 // The Lean side states what these facts must be (Props/C13.lean) and closes it with `decide`.
 
 import (
@@ -245,6 +246,101 @@ func (w *world) genLifecycle() string {
 			copyOuts = append(copyOuts, fmt.Sprintf("(%s, %v)", q(name), ok))
 		}
 	}
+	// provenance of the value stored in an optional-parameter container by the four parsers
+	var provs []string
+	for _, target := range []string{"smgp.ParseOptions", "smgp.ReadOptions", "smpp.ReadTLVs", "smpp.ReadTLVs1"} {
+		prov := "unknown"
+		for _, fn := range fns {
+			if funcDisplayName(fn) != target {
+				continue
+			}
+			fd := w.funcs[fn]
+			info := w.infoOf[fd]
+			params := map[types.Object]bool{}
+			if fd.Type.Params != nil {
+				for _, f := range fd.Type.Params.List {
+					for _, n := range f.Names {
+						params[info.ObjectOf(n)] = true
+					}
+				}
+			}
+			// how every local []byte variable is defined (all definitions must agree)
+			defs := map[types.Object][]string{}
+			classify := func(x ast.Expr) string {
+				switch e := x.(type) {
+				case *ast.CallExpr:
+					if f, ok := e.Fun.(*ast.Ident); ok && f.Name == "make" {
+						return "fresh"
+					}
+					if f, ok := e.Fun.(*ast.Ident); ok && f.Name == "append" && len(e.Args) >= 1 {
+						if c, ok := e.Args[0].(*ast.CallExpr); ok { // append([]byte(nil), …)
+							if _, ok := c.Fun.(*ast.ArrayType); ok {
+								return "fresh"
+							}
+						}
+					}
+				case *ast.SliceExpr:
+					if id, ok := e.X.(*ast.Ident); ok && params[info.Uses[id]] {
+						return "alias"
+					}
+				}
+				return "unknown"
+			}
+			ast.Inspect(fd.Body, func(n ast.Node) bool {
+				if as, ok := n.(*ast.AssignStmt); ok && len(as.Lhs) == len(as.Rhs) {
+					for i, l := range as.Lhs {
+						if id, ok := l.(*ast.Ident); ok {
+							if obj := info.ObjectOf(id); obj != nil {
+								defs[obj] = append(defs[obj], classify(as.Rhs[i]))
+							}
+						}
+					}
+				}
+				return true
+			})
+			// the composite literals stored into the container: field `value`
+			var found []string
+			ast.Inspect(fd.Body, func(n ast.Node) bool {
+				cl, ok := n.(*ast.CompositeLit)
+				if !ok {
+					return true
+				}
+				for _, el := range cl.Elts {
+					kv, ok := el.(*ast.KeyValueExpr)
+					if !ok {
+						continue
+					}
+					if k, ok := kv.Key.(*ast.Ident); ok && k.Name == "value" {
+						if id, ok := kv.Value.(*ast.Ident); ok {
+							ds := defs[info.Uses[id]]
+							r := "unknown"
+							if len(ds) > 0 {
+								r = ds[0]
+								for _, d := range ds {
+									if d != r {
+										r = "unknown"
+									}
+								}
+							}
+							found = append(found, r)
+						} else {
+							found = append(found, classify(kv.Value))
+						}
+					}
+				}
+				return true
+			})
+			if len(found) > 0 {
+				prov = found[0]
+				for _, f := range found {
+					if f != prov {
+						prov = "unknown"
+					}
+				}
+			}
+		}
+		provs = append(provs, fmt.Sprintf("(%s, %s)", q(target), q(prov)))
+	}
 	var sb strings.Builder
 	sb.WriteString("-- GENERATED by /verif/go/extract from the Go source of the repository's working tree. Do not edit.\n")
 	sb.WriteString("namespace SmsVerif.Gen\n\n")
@@ -260,6 +356,7 @@ func (w *world) genLifecycle() string {
 	}
 	fmt.Fprintf(&sb, "def poolPuts : List (String × String) := %s\n\n", leanList(ps, "  "))
 	fmt.Fprintf(&sb, "def copyOuts : List (String × Bool) := %s\n\n", leanList(copyOuts, "  "))
+	fmt.Fprintf(&sb, "/-- storage of the value a parser puts into an optional-parameter container: fresh (make / append to nil), alias (a slice of a parameter), unknown -/\ndef optionValueProv : List (String × String) := %s\n\n", leanList(provs, "  "))
 	sb.WriteString("end SmsVerif.Gen\n")
 	return sb.String()
 }
